@@ -360,6 +360,13 @@ class TaintEngine:
                 if not isinstance(e.slice, ast.Slice) else frozenset())
         if isinstance(e, ast.Call):
             return self.call_labels(f, e, state)
+        if isinstance(e, ast.IfExp):
+            from .inline import is_replace_if_present
+            if is_replace_if_present(e) and \
+                    not self.call_labels(f, e.body, state):
+                # `x.replace(pwd, '***') if pwd else x`: mask_pwd written
+                # out (without a password there is nothing to mask)
+                return frozenset()
         if isinstance(e, ast.Lambda):
             return frozenset()
         if isinstance(e, (ast.ListComp, ast.SetComp, ast.GeneratorExp,
